@@ -337,6 +337,8 @@ class ExprMixin:
 
     def contains(self, fr, container, x, node=None):
         if isinstance(container, SSet):
+            if container.src is not None:
+                self.setof(container.src.t, axioms=True)       # membership is asked: now the element / witness axioms matter
             return z3.Select(container.t, self.to_val(x))
         if isinstance(container, SDict):
             self.dict_hint(container, self.to_val(x))
